@@ -256,7 +256,7 @@ Proof.
           as [[[r0 i0] h5] tr5] eqn:EB.
         inversion Q; subst.
         eapply IH; [exact EB|]. destruct G as [G|G]; auto. right. destruct r0; auto. }
-      destruct validate.
+      destruct (validate && (negb (v_up v) || negb (is_resolved i))).
       * destruct h2 as [|[|z0 s0] h2']; simpl in H; try (eapply FIN; exact H).
         eapply STEP; exact H.
       * simpl in H. eapply STEP; exact H.
@@ -342,13 +342,17 @@ Proof.
             | None => None
             end); [inversion H; reflexivity|].
   destruct (try_infer_d sim_d prog) as [d|]; [|inversion H; reflexivity].
-  destruct (validate_instructions prog d); [inversion H; reflexivity|].
+  destruct (validate_instructions v prog d); [inversion H; reflexivity|].
+  destruct (v_up v && match shots with Some _ => false | None => true end
+            && existsb (fun i => is_meas i && negb (i_none_ok i)) prog); [inversion H; reflexivity|].
   destruct (match init with
             | Some (right_class, d0) => negb right_class || negb (d0 =? d)
             | None => false
             end); [inversion H; reflexivity|].
+  destruct (if v_up v && validate then prevalidate 0 prog h [] else (true, h, [])) as [[pok h0] tr0].
+  destruct pok; simpl in H; [|inversion H; reflexivity].
   destruct (do_exec v validate
-              match shots with Some _ => false | None => true end 0 (range d) prog [[]] h [])
+              match shots with Some _ => false | None => true end 0 (range d) prog [[]] h0 tr0)
     as [[r0 p0] t0] eqn:ED.
   inversion H; subst. eapply do_exec_restores; eauto.
 Qed.
@@ -396,19 +400,19 @@ Proof.
 Qed.
 
 (* only the try/finally repair: failing runs restore too when there is no string parameter *)
-Theorem finally_only_restores_except_str : forall validate sim_d shots init prog h,
+Theorem finally_only_restores_except_str : forall up validate sim_d shots init prog h,
   wf_prog prog -> prog_no_str prog ->
-  snd (fst (execute (mkV true false) validate sim_d shots init prog h)) = prog.
+  snd (fst (execute (mkV true false up) validate sim_d shots init prog h)) = prog.
 Proof.
-  intros validate sim_d shots init prog h W NS.
-  destruct (execute (mkV true false) validate sim_d shots init prog h) as [[r p] t] eqn:E. simpl.
+  intros up validate sim_d shots init prog h W NS.
+  destruct (execute (mkV true false up) validate sim_d shots init prog h) as [[r p] t] eqn:E. simpl.
   eapply execute_restores_gen; [|exact E|left; reflexivity].
   unfold prog_restorable. unfold wf_prog in W. unfold prog_no_str in NS.
   rewrite Forall_forall in *. intros i Hi. split; [apply W; exact Hi | right; apply NS; exact Hi].
 Qed.
 
 (* validate(program) is a function of the program only (returns nothing but an error kind) *)
-Theorem validate_is_pure : forall sim_d prog, exists e : option err, validate_program sim_d prog = e.
+Theorem validate_is_pure : forall v sim_d prog, exists e : option err, validate_program v sim_d prog = e.
 Proof. intros. eexists. reflexivity. Qed.
 
 (* ------------------------------------------------------------------ witnesses on the tree as it is *)
@@ -463,20 +467,30 @@ Proof.
   vm_compute. discriminate.
 Qed.
 
-(* non-vacuity: the same histories on the repaired variant *)
+(* non-vacuity: the repaired variant.  _validate of the two outcome-independent instructions
+   comes first and sees them as the caller wrote them; then step, step (one branch, outcome 1),
+   the parameter resolves to 3, _validate and step of the outcome-dependent gate *)
+Definition up_ok := [EvVal 0 []; EvVal 0 []; EvVal 0 [[]]; EvVal 0 [[1]]; EvVal 3 []; EvVal 0 []; EvVal 0 [[]]].
+
 Example repaired_ok_run :
-  execute repaired true (Some 3) (Some 1) None w_str all_ok
+  execute repaired true (Some 3) (Some 1) None w_str up_ok
   = (inr [[1]], w_str,
-     [CValidate 0 [0;1;2] []; CStep 0 [0;1;2] [] [];
-      CValidate 1 [0] []; CStep 1 [0] [] [];
+     [CValidate 0 [] []; CValidate 1 [0] [];
+      CStep 0 [0;1;2] [] []; CStep 1 [0] [] [];
       CParam 2 1 [1]; CValidate 2 [1] [(1, PConst 3)]; CStep 2 [1] [(1, PConst 3)] [1]]).
 Proof. vm_compute. reflexivity. Qed.
 
 Example repaired_fault_run :
   execute repaired true (Some 3) (Some 1) None w_lam
-     (pre_ok ++ [EvVal 3 []; EvVal 0 []; EvRaise])
+     (firstn 6 up_ok ++ [EvRaise])
   = (inl EInjected, w_lam,
-     [CValidate 0 [0;1;2] []; CStep 0 [0;1;2] [] [];
-      CValidate 1 [0] []; CStep 1 [0] [] [];
+     [CValidate 0 [] []; CValidate 1 [0] [];
+      CStep 0 [0;1;2] [] []; CStep 1 [0] [] [];
       CParam 2 1 [1]; CValidate 2 [1] [(1, PConst 3)]; CStep 2 [1] [(1, PConst 3)] [1]]).
+Proof. vm_compute. reflexivity. Qed.
+
+(* re-use of a measured mode is refused before anything runs *)
+Example repaired_inactive_upfront :
+  execute repaired true (Some 3) (Some 1) None [prep_all; meas1 [0]; gate1 [0] []] up_ok
+  = (inl EInactiveModes, [prep_all; meas1 [0]; gate1 [0] []], []).
 Proof. vm_compute. reflexivity. Qed.
